@@ -33,6 +33,8 @@ def _mk_batches(sizes, ncols, container):
         cols.append(vals)
       elif container == 'tuple':
         cols.append(tuple(vals))
+      elif container == 'ndarray2d':
+        cols.append(np.array([[v, v + 5] for v in vals], dtype=int).reshape(len(vals), 2))      # two values per row
       else:
         cols.append(np.array(vals, dtype=int))
     out.append(tuple(cols))
@@ -46,6 +48,21 @@ def _expected(expect, ncols, padval):
 
 def _tolist(chunks):
   return [[list(int(v) for v in col) for col in chunk] for chunk in chunks]
+
+
+def _tolist_2d(chunks, padval):
+  """Chunks of (rows, 2) columns -> the first value of every row; None when a column is not (rows, 2) or a row is torn."""
+  out = []
+  for chunk in chunks:
+    cols = []
+    for col in chunk:
+      if getattr(col, 'ndim', 0) != 2 or col.shape[1] != 2:
+        return None
+      if any(not (int(r[1]) - int(r[0]) == 5 or (int(r[0]) == padval and int(r[1]) == padval)) for r in col):
+        return None
+      cols.append([int(r[0]) for r in col])
+    out.append(cols)
+  return out
 
 
 def _replay(chk, h, containers):
@@ -72,7 +89,11 @@ def _replay(chk, h, containers):
           for chunk in gen:
             reads.append(('yield',))
             got_raw.append(chunk)
-          got = _tolist(got_raw)
+          got = _tolist(got_raw) if container != 'ndarray2d' else _tolist_2d(got_raw, PADVAL)
+          if got is None:
+            chk.violation('rebatch:2d-column-shape', f'sizes={sizes} B={b} pad={pad} cols={ncols}: chunks of a (rows, 2) column came back with shapes '
+                          f'{[[getattr(c, "shape", None) for c in ch] for ch in got_raw]}', ctx)
+            continue
         except Exception as e:  # pylint: disable=broad-exception-caught
           sig = f'rebatch:exception:{type(e).__name__}'
           if not sizes and not explicit_cols:
@@ -100,7 +121,7 @@ def _replay(chk, h, containers):
         for chunk in got_raw:
           for col in chunk:
             kind = 'list' if isinstance(col, list) else 'tuple' if isinstance(col, tuple) else 'ndarray'
-            if kind != container:
+            if kind != container.replace('2d', ''):
               chk.violation('rebatch:container-kind', f'{container} came back as {kind} (sizes={sizes} B={b})', ctx)
         # step pattern vs the carry-over machine (implementation-level conformance)
         if explicit_cols:
@@ -151,6 +172,31 @@ def _replay_pipeline(chk, h):
       if seen != want_seen:
         chk.violation('pipeline:fn_batch_size', f'fn saw batch sizes {seen}, want {want_seen} (sizes={sizes})',
                       dict(ctx, got=seen, want=want_seen))
+
+
+def _replay_pipeline_assign(chk, h):
+  """assign(..., batch_size=b): the assigned column stays aligned, row by row, with the columns it is added to."""
+  from ml_metrics._src.chainables import transform
+  sizes, b = h['sizes'], h['B']
+  if h['pad'] or not b or not sizes:
+    return
+  batches = [{'a': list(col[0])} for col in _mk_batches(sizes, 1, 'list')]
+  rows = [v for bt in batches for v in bt['a']]
+  ctx = dict(kind='rebatch-pipeline-assign', history=h)
+  same = all(s_ == b for s_ in sizes[:-1]) and sizes[-1] <= b
+  tag = 'input-batches-of-that-size' if same else 'batch_size-differs-from-input'
+  try:
+    p = transform.TreeTransform.new(name='p').assign('b', fn=lambda xs: [x + 100 for x in xs], input_keys='a', batch_size=b)
+    out = list(p.make().iterate([dict(bt) for bt in batches]))
+  except Exception as e:  # pylint: disable=broad-exception-caught
+    chk.violation(f'pipeline:assign:exception:{type(e).__name__}:{tag}', f'{e!r} sizes={sizes} B={b}', ctx)
+    return
+  torn = [rec for rec in out if len(rec['a']) != len(rec['b']) or any(y != x + 100 for x, y in zip(rec['a'], rec['b']))]
+  got_rows = [v for rec in out for v in rec['a']]
+  if torn:
+    chk.violation(f'pipeline:assign:misaligned:{tag}', f'sizes={sizes} B={b}: records whose assigned column does not match their own rows: {torn[:2]}', ctx)
+  elif got_rows != rows:
+    chk.violation(f'pipeline:assign:rows:{tag}', f'sizes={sizes} B={b}: rows {got_rows}, input {rows}', ctx)
 
 
 def _replay_pipeline_resizing(chk, h):
@@ -214,12 +260,13 @@ def body(chk):
   else:
     chk.coverage['exhaustive'] = True
   chk.count('behaviours', len(hs))
-  containers = ('list', 'tuple', 'ndarray')
+  containers = ('list', 'tuple', 'ndarray', 'ndarray2d')
   drift = 0
   for h in hs:
     drift += _replay(chk, h, containers)
     _replay_pipeline(chk, h)
     _replay_pipeline_resizing(chk, h)
+    _replay_pipeline_assign(chk, h)
     chk.replayed()
   chk.coverage['drift'] = drift
   if drift:
